@@ -128,6 +128,7 @@ VH_NOINSTR int main(int argc, char** argv) {
   int k = atoi(argv[1]);
   vh_parse(argv[2]);
   fiber_manager_init(k);
+  vh_rt_prepare(); /* run queues named, main fiber registered: the runtime model can follow this log too */
   VH_DIRTY(ms);
   fiber_multi_signal_init(&ms);
   /* the (counter, head) pair is ONE 16-byte cell: counter prints as `ms`, head as `ms+8` */
